@@ -16,7 +16,7 @@ func init() { Registry["C15"] = C15 }
 
 // decoys: files that no command may touch (paths relative to the sandbox; the CRS root is crs/)
 var c15Decoys = []core.Tree{
-	{"crs/regex-assembly/notes.txt": "notes\n", "crs/regex-assembly/notes.raw": "a\n"},
+	{"crs/regex-assembly/notes.txt": "notes\n", "crs/regex-assembly/notes.raw": "a\n", "crs/regex-assembly/include/notes.txt": "  notes\n", "crs/regex-assembly/include/inc.raw": "  a\n\n", "crs/regex-assembly/include/words.v2.txt": " w\n"},
 	{"crs/regex-assembly/123456.ra.bak": "  unformatted\n\n\n", "crs/regex-assembly/include/inc.ra~": " x\n"},
 	{"crs/rules/REQUEST-222-X.conf.bak": setupExample, "crs/rules/notes.txt": "# OWASP CRS ver.3.0.0\n", "crs/x.confx": setupExample, "crs/example": setupExample,
 		"crs/rules/modsecurity_conf": setupExample, "crs/httpd-vhost-conf": setupExample, "crs/setup-example": setupExample, "crs/rules/Xconf": setupExample, "crs/rules/a.conf.example.txt": setupExample},
@@ -85,6 +85,11 @@ func c15Commands() []c15Cmd {
 		{Name: "format chain", Args: []string{"regex", "format", "123457-chain1.ra"}, Targets: one("crs/regex-assembly/123457-chain1.ra")},
 		{Name: "format include", Args: []string{"regex", "format", "inc"}, Targets: one("crs/regex-assembly/include/inc.ra")},
 		{Name: "format --all", Args: []string{"regex", "format", "--all"}, Targets: raFiles},
+		// names with another extension are not assembly files
+		{Name: "format other extension", Args: []string{"regex", "format", "notes.txt"}, Targets: raFiles},
+		{Name: "format similar extension", Args: []string{"regex", "format", "inc.raw"}, Targets: raFiles},
+		{Name: "format dotted name with other extension", Args: []string{"regex", "format", "words.v2.txt"}, Targets: raFiles},
+		{Name: "format --check other extension", Args: []string{"regex", "format", "-c", "notes.txt"}, Inspect: true},
 		{Name: "format upper-case class", Args: []string{"regex", "format", "upper"}, Targets: one("crs/regex-assembly/include/upper.ra")},
 		{Name: "format unbalanced", Args: []string{"regex", "format", "unbalanced"}, Targets: one("crs/regex-assembly/include/unbalanced.ra")},
 		{Name: "update", Args: []string{"regex", "update", "123456"}, Targets: one("crs/rules/REQUEST-123-TEST.conf")},
